@@ -67,7 +67,7 @@ v("C05", "refresh-mints-new-token", HB, "ID:       e.cfg.InstanceID,\n\t\t\t\tTo
 v("C06", "five-second-periodic-check", W, "checkTicker := time.NewTicker(500 * time.Millisecond)", "checkTicker := time.NewTicker(5 * time.Second)", ["C06-R2"], "the periodic existence check runs every 5 s")
 v("C06", "watch-loop-gives-up-as-leader", W, "\t\tif ctx.Err() != nil {\n\t\t\treturn\n\t\t}\n", "\t\tif ctx.Err() != nil || e.IsLeader() {\n\t\t\treturn\n\t\t}\n",
   ["C06-R3"], "the follower loop ends for good when it notices the instance leads")
-v("C06", "watcher-only-after-demotion", KV, "if ctx := e.ctx; ctx != nil && !e.watcherRunning.Load() {", "if ctx := e.ctx; ctx != nil && wasLeader && !e.watcherRunning.Load() {",
+v("C06", "watcher-only-after-demotion", KV, "if ctx := e.ctx; ctx != nil && e.watcherCtx != ctx {", "if ctx := e.ctx; ctx != nil && wasLeader && e.watcherCtx != ctx {",
   ["C06-R1"], "only a demoted leader starts the follower loop; a failed first acquisition does not")
 v("C06", "read-error-ignored-by-periodic-check", W, "\t\te.startAcquireRound(ctx)\n\t\treturn\n\t}\n\n\tif entry == nil || len(entry.Value()) == 0 {", "\t\treturn\n\t}\n\n\tif entry == nil || len(entry.Value()) == 0 {",
   ["C06-R2"], "a missing key no longer triggers an acquisition round in the periodic check")
@@ -87,8 +87,8 @@ v("C09", "untracked-acquisition-round", KV, "\te.wg.Add(1)\n\tgo func() {\n\t\td
   ["C09-R2"], "acquisition rounds are not registered with the WaitGroup")
 v("C09", "stop-waits-without-timeout", KV, "\tselect {\n\tcase <-done:\n\tcase <-time.After(5 * time.Second):\n\t}\n", "\tselect {\n\tcase <-done:\n\t}\n", ["C09-R3"], "Stop waits for background work without a time-out")
 v("C09", "follower-transition-after-stop", KV, "\tif fromState == StateStopped {\n\t\treturn false\n\t}\n", "", ["C09-R1"], "a late becomeFollower turns STOPPED into FOLLOWER")
-v("C09", "stop-clears-claim-after-unlock", KV, "\te.isLeader.Store(false)\n\te.state.Store(StateStopped)\n\te.lastTransition.Store(time.Now())\n\te.watcherRunning.Store(false)\n\n\te.recordTransition(currentState, StateStopped)\n\te.updateIsLeaderMetric()\n\n\tif e.disconnectHandler != nil {\n\t\te.disconnectHandler.stop()\n\t}\n\n\te.mu.Unlock()\n\n\tlog := e.getLogger()",
-  "\te.watcherRunning.Store(false)\n\n\tif e.disconnectHandler != nil {\n\t\te.disconnectHandler.stop()\n\t}\n\n\te.mu.Unlock()\n\n\te.isLeader.Store(false)\n\te.state.Store(StateStopped)\n\te.lastTransition.Store(time.Now())\n\te.recordTransition(currentState, StateStopped)\n\te.updateIsLeaderMetric()\n\n\tlog := e.getLogger()",
+v("C09", "stop-clears-claim-after-unlock", KV, "\te.isLeader.Store(false)\n\te.state.Store(StateStopped)\n\te.lastTransition.Store(time.Now())\n\te.watcherCtx = nil\n\n\te.recordTransition(currentState, StateStopped)\n\te.updateIsLeaderMetric()\n\n\tif e.disconnectHandler != nil {\n\t\te.disconnectHandler.stop()\n\t}\n\n\te.mu.Unlock()\n\n\tlog := e.getLogger()",
+  "\te.watcherCtx = nil\n\n\tif e.disconnectHandler != nil {\n\t\te.disconnectHandler.stop()\n\t}\n\n\te.mu.Unlock()\n\n\te.isLeader.Store(false)\n\te.state.Store(StateStopped)\n\te.lastTransition.Store(time.Now())\n\te.recordTransition(currentState, StateStopped)\n\te.updateIsLeaderMetric()\n\n\tlog := e.getLogger()",
   ["C09-R0"], "Stop clears the claim after releasing the mutex")
 v("C09", "nil-unsafe-logging", "leader/logger.go", "\tif ctx != nil {\n\t\tif correlationID", "\t{\n\t\tif correlationID", ["C09-R6"], "logWithContext dereferences a nil context again")
 # ---- C10
@@ -163,7 +163,7 @@ v("C06", "watch-retry-backoff", W, "\t\tcase <-time.After(watchRetryInterval):",
 v("C03", "result-channel-shared", HB, "\t\t\tresultChan := make(chan updateResult, 1)\n", "", ["C03-R1"], "one result channel is shared by all refresh attempts", also=[("\tfor {\n\t\tselect {\n\t\tcase <-ctx.Done():\n\t\t\te.handleHeartbeatContextDone(ctx)", "\ttype updateResult struct {\n\t\trev uint64\n\t\terr error\n\t}\n\tresultChan := make(chan updateResult, 1)\n\tfor {\n\t\tselect {\n\t\tcase <-ctx.Done():\n\t\t\te.handleHeartbeatContextDone(ctx)"), ("\t\t\ttype updateResult struct {\n\t\t\t\trev uint64\n\t\t\t\terr error\n\t\t\t}\n", "")])
 v("C06", "no-check-at-watch-establishment", W, "\tif !e.IsLeader() {\n\t\te.checkKeyAndReelect(ctx)\n\t}\n\n\tfor {\n\t\tselect {\n\t\tcase <-ctx.Done():\n\t\t\treturn\n\t\tcase entry, ok := <-watcher.Updates():", "\tfor {\n\t\tselect {\n\t\tcase <-ctx.Done():\n\t\t\treturn\n\t\tcase entry, ok := <-watcher.Updates():", ["C06-R2"], "two periods between existence checks around a watch re-establishment")
 v("C07", "validation-timeout-fixed", FE, "\tif half := e.cfg.HeartbeatInterval / 2; half > validationTimeout {\n\t\tvalidationTimeout = half\n\t}\n", "", ["C07-R7"], "the background validation read times out after a fixed 2 s")
-v("C08", "demotion-result-lost", KV, "\tif ctx := e.ctx; ctx != nil && !e.watcherRunning.Load() {", "\tif e.ctx == nil {\n\t\treturn false\n\t}\n\tif ctx := e.ctx; ctx != nil && !e.watcherRunning.Load() {", ["C08-R2"], "enterFollowerState returns false after it cleared a standing claim")
+v("C08", "demotion-result-lost", KV, "\tif ctx := e.ctx; ctx != nil && e.watcherCtx != ctx {", "\tif e.ctx == nil {\n\t\treturn false\n\t}\n\tif ctx := e.ctx; ctx != nil && e.watcherCtx != ctx {", ["C08-R2"], "enterFollowerState returns false after it cleared a standing claim")
 v("C13", "preempts-nameless-record", KV, "\tif currentPayload.ID == \"\" {\n\t\treturn fmt.Errorf(\"priority takeover skipped (record names no leader)\")\n\t}\n", "", ["C13-R6"], "a record that is valid JSON but no leadership payload is preempted as priority 0")
 v("C08", "failed-stop-silent", KV, "\t\tif wasLeader && hasOnDemote {\n\t\t\te.notifyDemotedByFailedStop()\n\t\t}\n\t\treturn fmt.Errorf(\"shutdown timeout exceeded: %v\", timeout)", "\t\treturn fmt.Errorf(\"shutdown timeout exceeded: %v\", timeout)", ["C08-R2"], "a StopWithContext that times out clears the claim without OnDemote")
 v("C01", "shutdown-delete-unconditional", KV, "\tif rd, ok := e.kv.(RevisionDeleter); ok {\n\t\treturn rd.DeleteRevision(e.key, rev)\n\t}\n", "\t_ = rev\n", ["C01-R7"], "the shutdown deletion ignores the revision of the ownership read")
@@ -203,7 +203,7 @@ v("C07", "validation-demotion-unbound", FE, "\t\t\t\te.handleValidationFailure(c
 v("C07", "term-identity-test-dropped", KV, "\tif term != nil && e.termCtx != term {\n\t\treturn false\n\t}\n", "", ["C07-R9", "C12-R7"], "demotions bound to a term are no longer compared with the current term")
 v("C12", "stale-health-result-counted", HB, "\t\t\t\tif ctx.Err() != nil {\n\t\t\t\t\tcontinue\n\t\t\t\t}\n\t\t\t\tif !healthy {", "\t\t\t\tif !healthy {", ["C12-R8"], "the result of a health check that outlasted the term is counted against the next term")
 v("C12", "acquisition-gated-by-health-count", KV, "func (e *kvElection) attemptAcquire() error {\n", "func (e *kvElection) attemptAcquire() error {\n\tif e.cfg.HealthChecker != nil && e.healthFailureCount.Load() >= 3 {\n\t\treturn ErrNotLeader\n\t}\n", ["C12-R9"], "a follower demoted for health reasons never campaigns again")
-v("C06", "round-flag-not-cleared-on-cancel", KV, "func (e *kvElection) startAcquireRound(ctx context.Context) {\n", "func (e *kvElection) startAcquireRound(ctx context.Context) {\n\tif !e.watcherRunning.CompareAndSwap(true, true) && !e.deleteKeyOnStop.CompareAndSwap(false, false) {\n\t\treturn\n\t}\n", ["C06-R6"], "an atomic flag that is never cleared by the round decides whether a round starts")
+v("C06", "round-flag-not-cleared-on-cancel", KV, "func (e *kvElection) startAcquireRound(ctx context.Context) {\n", "func (e *kvElection) startAcquireRound(ctx context.Context) {\n\tif !e.deleteKeyOnStop.CompareAndSwap(false, false) {\n\t\treturn\n\t}\n", ["C06-R6"], "an atomic flag that is never cleared by the round decides whether a round starts")
 v("C09", "reconnect-samples-claim-before-lock", CN, "func (e *kvElection) handleReconnect() {\n\te.mu.Lock()\n\tdefer e.mu.Unlock()\n", "func (e *kvElection) handleReconnect() {\n\twasLeader := e.isLeader.Load()\n\te.mu.Lock()\n\tdefer e.mu.Unlock()\n", ["C09-R9"], "the reconnect verification is started on a claim read before the mutex: after a Stop in between", also=[("\tif !e.isLeader.Load() {\n\t\treturn\n\t}\n\n\tlog.Info(\"verifying_leadership_after_reconnect\"", "\tif !wasLeader {\n\t\treturn\n\t}\n\n\tlog.Info(\"verifying_leadership_after_reconnect\"")])
 v("C11", "reconnect-as-follower-keeps-timer", CN, "\tif e.disconnectHandler != nil {\n\t\te.disconnectHandler.stop()\n\t}\n\n\tif !e.isLeader.Load() {\n\t\treturn\n\t}\n\n\tlog.Info(\"verifying_leadership_after_reconnect\"", "\tif !e.isLeader.Load() {\n\t\treturn\n\t}\n\n\tif e.disconnectHandler != nil {\n\t\te.disconnectHandler.stop()\n\t}\n\n\tlog.Info(\"verifying_leadership_after_reconnect\"", ["C11-R4"], "a reconnect notification received as follower does not cancel the pending expiry")
 v("C11", "verification-success-cancels-timer", CN, "\tlog.Info(\"reconnect_verification_success\",", "\tif e.disconnectHandler != nil {\n\t\te.disconnectHandler.stop()\n\t}\n\tlog.Info(\"reconnect_verification_success\",", ["C11-R4"], "the asynchronous verification cancels whatever expiry is pending when it ends, also a newer disconnect's")
@@ -228,6 +228,15 @@ v("C05", "status-token-is-leader-id", KV, "\t\tToken:          token,\n", "\t\tT
 v("C15", "heartbeat-retries-permanent-errors", HB, "\t\t\t\tif IsPermanentError(updateErr) {", "\t\t\t\tif updateErr == ErrNotLeader {", ["C15-R4", "C03-R2"], "the heartbeat no longer classifies its error: a revision conflict is retried three times")
 v("C18", "undocumented-state-value", KV, "\te.state.Store(StateCandidate)", "\te.state.Store(\"STARTING\")", ["C18-R4"], "an undocumented state value is stored")
 v("C20", "key-rewritten-in-start", KV, "\te.ctx, e.cancel = context.WithCancel(ctx)\n", "\te.ctx, e.cancel = context.WithCancel(ctx)\n\te.key = e.cfg.Group\n", ["C20-R1", "C20-R2"], "an init-only field that is read without the mutex everywhere gets a writer")
+
+# ---- round 4
+v("C04", "ordemote-bound-to-a-captured-term", KV, "\t\t\te.handleValidationFailure(nil, err)", "\t\t\te.handleValidationFailure(e.termCtx, err)", ["C04-R4"], "ValidateTokenOrDemote demotes only the term it read before: false without demotion after a re-election")
+v("C06", "tick-channel-nil-for-a-leader", W, "\tcheckTicker := time.NewTicker(500 * time.Millisecond)\n\tdefer checkTicker.Stop()\n", "\tcheckTicker := time.NewTicker(500 * time.Millisecond)\n\tdefer checkTicker.Stop()\n\ttickC := checkTicker.C\n\tif e.IsLeader() {\n\t\ttickC = nil\n\t}\n", ["C06-R2"], "the watch session of a leader has no tick channel; after a demotion the periodic check never runs", also=[("\t\tcase <-checkTicker.C:", "\t\tcase <-tickC:")])
+v("C06", "watcher-marker-boolean", KV, "\tif ctx := e.ctx; ctx != nil && e.watcherCtx != ctx {\n\t\te.watcherCtx = ctx\n", "\tif ctx := e.ctx; ctx != nil && e.watcherCtx == nil {\n\t\te.watcherCtx = ctx\n", ["C06-R1"], "the watcher marker no longer identifies the run: a still-finishing watcher of an earlier run suppresses the new run's")
+v("C14", "forwarded-entry-carried-over", EL, "\t\t\tfor natsEntry := range a.watcher.Updates() {\n\t\t\t\tvar entry Entry\n", "\t\t\tvar entry Entry\n\t\t\tfor natsEntry := range a.watcher.Updates() {\n", ["C14-R3"], "the client's nil marker forwards the previous entry again")
+v("C17", "half-open-success-keeps-the-count", RT, "\tcb.failures = 0\n\tcb.state = CircuitStateClosed\n", "\tif cb.state == CircuitStateClosed {\n\t\tcb.failures = 0\n\t}\n\tcb.state = CircuitStateClosed\n", ["C17-R2"], "a successful half-open probe closes the breaker but keeps the failure count")
+v("C18", "leader-id-stored-only-when-cache-differs", KV, "\te.leaderID.Store(id)\n\te.revision.Store(rev)\n}", "\tif e.lastTransition.Load() != nil {\n\t\te.leaderID.Store(id)\n\t}\n\te.revision.Store(rev)\n}", ["C18-R5"], "the observed leader id is stored only under a condition on other state of the election")
+v("C20", "append-to-shared-slice", KV, "func (e *kvElection) getMetricsLabels() prometheus.Labels {", "func (e *kvElection) sharedFields() []string {\n\te.mu.RLock()\n\tfields := e.cfgFields\n\te.mu.RUnlock()\n\treturn append(fields, e.key)\n}\n\nfunc (e *kvElection) getMetricsLabels() prometheus.Labels {", ["C20-R4"], "append to a slice kept in the election object", also=[("\ttermCtx context.Context\n\n", "\ttermCtx context.Context\n\tcfgFields []string\n\n")])
 
 def main():
     only = set(sys.argv[1:])
